@@ -135,7 +135,7 @@ PROPS = {
         level_text=("PARTIAL proof (by nature of the property). Proved in Lean for every input, every option record: the parsing machine (one arm per arm of the Rust loop, its only recursion a tail call, "
                     "nesting kept in an explicit stack) terminates (well-founded measure accepted by the kernel), needs at most 2*|input|+2 loop iterations, consumes every character exactly once on success, "
                     "and never reaches the only panic site of the parser (end_fragment's unwrap) — invariant: every code-map index held by the machine is below the code map's length. "
-                    "What a model cannot exhibit — real stack depth of the compiled code, aborts in dependencies — is observed: arrays/objects/mixed nestings of depth 10^3..2*10^5 (thorough 2*10^6), closed and unclosed, are parsed and "
+                    "What a model cannot exhibit — real stack depth of the compiled code, aborts in dependencies — is observed: arrays/objects/mixed nestings of depth 10^3..2*10^5 (thorough 2*10^6), closed and unclosed, and completed deep values followed by a syntax error (after the document; inside an enclosing array: the case repaired by fix: 9a28305, where rejected values used to be dropped recursively on the parser's stack), are parsed and "
                     "traversed in a thread with a fixed 256 KiB stack inside a child process — once in the optimised build and once in an UNOPTIMISED build of the same child (an optimiser may turn a self-recursive call into a loop and hide a stack depth that grows with the input), together with long whitespace runs at every grammar position, indented documents, long strings / numbers / item lists; random bytes, prefixes and single-byte edits of the corpus go through the byte entry point under all four option records with catch_unwind; "
                     "a counting iterator checks that no more characters are pulled than exist."),
         level_note="Trusted: Lean kernel; model validated by correspondence; runtime stack behaviour is tested, not proved. Traverse = pre-order is proved under C11 (when claimed).",
